@@ -364,10 +364,13 @@ type c02Embedding struct {
 
 var c02Embeddings = []c02Embedding{
 	{"alone", func(s string) string { return "/" + s }, func(t string) string { return "/" + t }, false},
+	// followed by another bind-carrying segment (registering the later segment looks at the binds of this one)
+	{"before-placeholder", func(s string) string { return "/" + s + "/{w}" }, func(t string) string { return "/" + t + "/n" }, false},
 	{"final", func(s string) string { return "/n/" + s }, func(t string) string { return "/n/" + t }, false},
 	{"non-final", func(s string) string { return "/" + s + "/n" }, func(t string) string { return "/" + t + "/n" }, false},
 	{"middle", func(s string) string { return "/n/" + s + "/e" }, func(t string) string { return "/n/" + t + "/e" }, false},
 	{"optional", func(s string) string { return "/n/?" + s }, func(t string) string { return "/n/" + t }, true},
+	{"between-binds", func(s string) string { return "/{v}/" + s + "/{w: /[en]+/}" }, func(t string) string { return "/n/" + t + "/e" }, false},
 }
 
 func c02Run(r *core.Run) {
@@ -375,7 +378,7 @@ func c02Run(r *core.Run) {
 	if err != nil {
 		panic(err)
 	}
-	r.Rule = "engine E: every generated regex-style / placeholder / match-all segment (1..3 elements over literals incl. regex-active ones, {x}, {y: /E/}, two-parameter lists; E incl. own groups and alternations) embedded alone / final / non-final / middle / optional, x every candidate path text (all strings <=L (3, thorough 6) over {a,b,1,+,.,-} plus per-element candidate products incl. %-escapes); plus every ordered pair of requests on every tree of one or two routes of a second catalogue (the second answer must be a fresh tree's); oracle: dispatched iff admitted, and SOME alignment of the route to the raw path exists whose once-decoded captures equal the received values; non-trivial = dispatched and (>=2 binds or an escape in the path)"
+	r.Rule = "engine E: every generated regex-style / placeholder / match-all segment (1..3 elements over literals incl. regex-active ones, {x}, {y: /E/}, two-parameter lists; E incl. own groups and alternations) embedded alone / before a placeholder segment / final / non-final / middle / optional / between two bind-carrying segments, x every candidate path text (all strings <=L (3, thorough 6) over {a,b,1,+,.,-} plus per-element candidate products incl. %-escapes); plus every ordered pair of requests on every tree of one or two routes of a second catalogue (the second answer must be a fresh tree's); oracle: dispatched iff admitted, and SOME alignment of the route to the raw path exists whose once-decoded captures equal the received values; non-trivial = dispatched and (>=2 binds or an escape in the path)"
 	r.Assumptions = []string{"Go regexp trusted, used per expression alone", "parameters left over from abandoned branches are not flagged (documented by Tree.Match); only the matched route's binds are compared", "expressions whose meaning depends on context (anchors, \\b) are outside the alphabet"}
 	maxLen := 3
 	r.SetBudget(70 * time.Second)
@@ -388,7 +391,13 @@ func c02Run(r *core.Run) {
 	generic = append(generic, "", "(v)", "a(v)", "%61", "a%2Fb")
 	r.Bounds["segments"] = len(segs)
 	r.Bounds["generic_texts_per_segment"] = len(generic)
-	r.Bounds["embeddings"] = []string{"alone", "final", "non-final", "middle", "optional"}
+	{
+		var names []string
+		for _, e := range c02Embeddings {
+			names = append(names, e.name)
+		}
+		r.Bounds["embeddings"] = names
+	}
 	type job struct {
 		cr    catRoute
 		seg   c02Seg
@@ -400,8 +409,8 @@ func c02Run(r *core.Run) {
 	for _, sg := range segs {
 		texts := append(append([]string{}, generic...), sg.cands...)
 		for ei, emb := range c02Embeddings {
-			if !r.Thorough() && ei >= 2 && len(sg.cands) > 40 {
-				// quick: the two-position embeddings (final, non-final) for the big products, all five for the rest
+			if !r.Thorough() && ei >= 3 && len(sg.cands) > 40 {
+				// quick: the first three embeddings for the big products, all seven for the rest
 				continue
 			}
 			cat, bad := mkCatalogue(p, []string{emb.mk(sg.text)})
